@@ -174,6 +174,29 @@ CHECKS = {
             "otherwise); PA compared for axis ratio >= 1.02; three known findings (exact half-pixel tie, noisy extended sources split / beyond 5 sigma).",
             "TLC-enumerated configuration lattice + relational trace validation by TLC on fixed-point projections of inject->find->report executions",
             "4/C01"),
+    "C03": ("model_checking",
+            "Finder.tla models the island / component numbering machine (blind: one number per non-empty island; priorized: groups cut into batches "
+            "of B refitted from istart); TLC checks Consistent(rows) (unique (island, source) pairs, components 0..n-1) for all island sequences, "
+            "B = 2..3, up to 2B+1 groups, and shows the collision of the originally coded istart = batch number. Real catalogues of seeded scenes "
+            "(0 islands, sparse, blends, 1-6 pixel islands, > 40 groups, edge sources, NaN regions, coincident summits; both signs) in the modes "
+            "blind, blind + island rows, priorized stage 1-3 x regroup, each repeated in-process and in a fresh process (different PYTHONHASHSEED) "
+            "and written / read back with save_catalog, are projected to integers and validated by TLC (Finder_Trace, numbering clauses = "
+            "Finder!Consistent): completion, uniqueness, ranges of a/b/pa/ra/dec/flags, error markers, sexagesimal strings vs decimals, int_flux "
+            "relation, island rows vs detected pixels (count, peak, extent), components inside detected islands, reproducibility.",
+            "valid image (finite beam, forced rms/bkg); island pixel oracle = find_islands (pinned by C02); max_angular_size / eta / contours not in the property.",
+            "TLA+ numbering machine model-checked with TLC + TLC trace validation of real catalogues (fixed-point projections, float-identity tokens)",
+            "4/C03"),
+    "C05": ("model_checking",
+            "Priorized.tla models Refit over catalogues with usable / off-image / blank rows and the stage -> frozen-parameter table, plus an integer "
+            "model of the cut-out registration (TLC proves data origin = parameter origin for all pixel x, width w, and exhibits the half-pixel "
+            "misregistration of the original float arithmetic). For seeded cases over stage x regroup x ratio x psf columns x file / in-memory "
+            "catalogue x shape (1..60 sources, odd and even cut-out widths, blends sharing an island, off-image and blank-pixel rows, shuffled rows, "
+            "> 20 groups) the image is the exact noise-free model rendered independently of AegeanTools; the real priorized_fit_islands is run with "
+            "the full catalogue and with the rejected rows removed; TLC validates (Priorized_Trace): at most one row per accepted source with its uuid "
+            "and PRIORIZED, frozen positions / shapes and their input uncertainties, recovery to 0.1 % / 0.01 px / 0.1 %, no error, non-interference.",
+            "sources of different islands >= 3.5 FWHM apart, >= 14 px from the edges; pixel coordinates away from rounding ties; noise-free.",
+            "TLA+ model (stage table + integer cut-out registration) checked by TLC + TLC trace validation of real priorized runs on exact-model images",
+            "4/C05"),
 }
 
 NOT_YET = "check not built yet in this round of construction (planned, see DESIGN.md section 4)"
